@@ -1,11 +1,11 @@
 """C03 — Variables and run counters end up with the values the csvpath assigns."""
 import interp_common
 
-MODULES = ["Props.C03", "Props.RunTie", "Props.WhenTie", "Props.MonitorTie"]
+MODULES = ["Props.C03", "Props.RunTie", "Props.WhenTie", "Props.MonitorTie", "Props.MatchTie"]
 THEOREMS = ["Props.C03.c03_scan_count", "Props.C03.c03_match_count", "Props.C03.c03_ctx_counts", "Props.C03.c03_sameline", "Props.C03.c03_when_order",
             "Props.C03.c03_position_functions", "Props.RunTie.consider_line_source_is_model", "Props.RunTie.advance_source",
             "Props.WhenTie.when_source_is_model", "Props.WhenTie.c03_when_order_source", "Props.WhenTie.interp_is_instance",
-            "Props.MonitorTie.next_line_source_is_model", "Props.MonitorTie.monitor_over_file", "Props.MonitorTie.physical_after_file", "Props.MonitorTie.set_end_source"]
+            "Props.MonitorTie.next_line_source_is_model", "Props.MonitorTie.monitor_over_file", "Props.MonitorTie.physical_after_file", "Props.MonitorTie.set_end_source", "Props.MatchTie.matches_source_is_model", "Props.MatchTie.c03_sameline_source"]
 
 
 def run(check, tier):
